@@ -741,6 +741,37 @@ theorem h2_to_h2 (authOk : Bool) (b : Block) (r : Req)
 
 /-! ### non-interference: sending does not change the recorded message -/
 
+/-- Trailers (request or response) forwarded HTTP/2 → HTTP/2, the only pair of versions that can carry them in
+    mitmproxy: `send_trailers([*event.trailers.fields])` — hyper-h2's outbound normalization leaves a block that passed
+    the inbound validator exactly as it is (names, values, order), and the next hop's validator accepts it again. -/
+theorem h2_to_h2_trailers (t : Block) (hv : h2ValidTrailers t = true) :
+    normalizeH2 t = t ∧ h2ValidTrailers (normalizeH2 t) = true := by
+  have hnorm : normalizeH2 t = t := by
+    unfold normalizeH2
+    have : ∀ f ∈ t, (if pyIsLower f.1 then f else (lower f.1, f.2)) = f := by
+      intro f hf
+      split
+      · rfl
+      · simp only [h2ValidTrailers, Bool.and_eq_true] at hv
+        have hok := (List.all_eq_true.mp hv.1) f hf
+        simp only [fieldOk, Bool.and_eq_true, h2NameOk] at hok
+        have hname := hok.1.1.1.1.1
+        have : lower f.1 = f.1 := by
+          unfold lower asciiLower
+          conv => rhs; rw [← List.map_id f.1]
+          apply List.map_congr_left
+          intro c hc
+          have := (List.all_eq_true.mp hname) c hc
+          simp only [Bool.and_eq_true, Bool.not_eq_true', decide_eq_true_eq] at this
+          unfold asciiLowerB
+          have h1 : ¬(65 ≤ c.toNat ∧ c.toNat ≤ 90) := by
+            intro h; have := this.1.1; simp [h.1, h.2] at this
+          simp [h1]
+        rw [this]
+    conv => rhs; rw [← List.map_id t]
+    exact List.map_congr_left this
+  exact ⟨hnorm, by rw [hnorm]; exact hv⟩
+
 /-- Converting / sending a recorded request to an HTTP/1 or HTTP/2 hop leaves the stored request unchanged, and — over
     any history of sends of the same flow (live exchange, then any number of replays to any hops) — every send emits
     exactly what the first send to that hop would have emitted: the conversion is a function of the message alone. -/
